@@ -3,6 +3,8 @@
 #include "ctx.hpp"
 #include <array>
 #include <map>
+#include <unordered_map>
+#include "aesmode.h"
 
 namespace {
 typedef std::array<uint8_t, 16> blk;
@@ -25,7 +27,86 @@ blk used_iv(int cmode, const uint8_t key[16], const uint8_t *p0, const uint8_t *
 }
 } // namespace
 
+// One stream longer than 2^24 blocks, driven through the product's own mode object with an all-zero plaintext, so
+// the output IS the keystream.  Monitors: (a) the first 4096 keystream blocks never come back later in the stream
+// (a counter that cycles returns to where it started), (b) Brent's cycle search over the whole stream (cycles that do
+// not go through the start), (c) block i and block i + 2^k (k = 8, 16, 24) differ.
+static void long_streams(Ctx &cx) {
+  const size_t N = ((size_t)1 << 24) + 8192, HEAD = 4096;
+  static const int modes[] = {2, 4, 2, 2};
+  for (int v = 0; v < (cx.thorough ? 12 : 4); v++) {
+    if (!cx.take()) continue;
+    vh::Rng r = cx.case_rng();
+    int mode = modes[v % 4];
+    uint8_t key[16], ivc[20];
+    r.fill(key, 16);
+    memset(ivc, 0x5A, 20);
+    r.fill(ivc, 16);
+    if (v % 4 == 2) memset(ivc + 13, 0xFF, 3), ivc[15] = 0xF0;   // low counter bytes about to carry into byte 12
+    if (v % 4 == 3) memset(ivc + 8, 0xFF, 8), ivc[15] = 0x00;    // carry out of the low 64 bits early in the stream
+    vh::J dj;
+    dj.num("mode", mode).str("key", vh::hex(key, 16)).str("iv", vh::hex(ivc, 16)).num("blocks", (long long)N);
+    std::string desc = dj.done();
+    cx.begin(desc);
+    AesFactory f(key);
+    f.loadiv(ivc);
+    Aesmode *m = f.createCryMaster(true, (u8_t)mode);
+    if (!m) { cx.rep.violation("C18|long-stream|factory-null", "no mode object", desc); continue; }
+    std::unordered_map<uint64_t, std::pair<uint64_t, uint32_t>> head; // first 8 bytes -> (second 8 bytes, index)
+    head.reserve(HEAD * 2);
+    std::vector<uint8_t> lag8(16 * 256); // the last 256 blocks: distance 2^8
+    std::vector<uint8_t> samp;           // blocks with (i mod 2^16) < 16, in order: distance 2^16
+    blk tort{};                  // Brent
+    size_t power = 1, lam = 0;
+    bool reuse_head = false, reuse_brent = false, reuse_lag = false;
+    size_t w_a = 0, w_b = 0;
+    uint8_t buf[16 * 256];
+    for (size_t done = 0; done < N && !(reuse_head || reuse_brent || reuse_lag); done += 256) {
+      memset(buf, 0, sizeof buf);
+      for (int i = 0; i < 256; i++) m->runcry(buf + 16 * i);
+      for (int i = 0; i < 256; i++) {
+        size_t idx = done + i;
+        const uint8_t *b = buf + 16 * i;
+        uint64_t lo, hi;
+        memcpy(&lo, b, 8); memcpy(&hi, b + 8, 8);
+        if (idx < HEAD) {
+          auto it = head.find(lo);
+          if (it != head.end() && it->second.first == hi) { reuse_head = true; w_a = it->second.second; w_b = idx; break; }
+          head[lo] = std::make_pair(hi, (uint32_t)idx);
+        } else {
+          auto it = head.find(lo);
+          if (it != head.end() && it->second.first == hi) { reuse_head = true; w_a = it->second.second; w_b = idx; break; }
+        }
+        if (idx > 0) {
+          if (!memcmp(tort.data(), b, 16)) { reuse_brent = true; w_a = idx - lam - 1; w_b = idx; break; }
+          if (++lam == power) { memcpy(tort.data(), b, 16); power *= 2; lam = 0; }
+        } else memcpy(tort.data(), b, 16);
+        if (idx >= 256 && !memcmp(lag8.data() + 16 * (idx % 256), b, 16)) { reuse_lag = true; w_a = idx - 256; w_b = idx; break; }
+        memcpy(lag8.data() + 16 * (idx % 256), b, 16);
+        if ((idx & 0xFFFF) < 16) {
+          size_t k = (idx >> 16) * 16 + (idx & 0xFFFF);
+          if (samp.size() < 16 * (k + 1)) samp.resize(16 * (k + 1));
+          memcpy(samp.data() + 16 * k, b, 16);
+          if (k >= 16 && !memcmp(samp.data() + 16 * (k - 16), b, 16)) { reuse_lag = true; w_a = idx - 65536; w_b = idx; break; }
+        }
+      }
+    }
+    delete m;
+    cx.rep.count("long_streams");
+    cx.rep.count("keystream_blocks_checked", (long long)N);
+    cx.rep.maxc("longest_stream_blocks", (long long)N);
+    if (reuse_head || reuse_brent || reuse_lag) {
+      vh::J j;
+      j.raw("stream", desc).num("block_a", (long long)w_a).num("block_b", (long long)w_b).num("distance", (long long)(w_b - w_a));
+      cx.rep.violation(std::string("C18|keystream-reuse|within-stream|long|") + (mode == 2 ? "CTR" : "OFB"),
+                       "a keystream block came back later in the same stream", j.done());
+    }
+    cx.rep.dist("class", vh::tuple_hash({mode, v, 424242}));
+  }
+}
+
 void run_C18(Ctx &cx) {
+  if (cx.args.s("sub") == "long") { long_streams(cx); return; }
   const size_t c = VH_CHUNK;
   int nseeds = cx.thorough ? 40 : 6;
   for (int T = 2; T <= 16; T++)
